@@ -101,8 +101,8 @@ def random_cases(seed, n, part, want_assertions=False):
 
 def plan(tier, seed, want_assertions=False, per_chunk=None, random_chunks=None):
     quick = tier == "quick"
-    per_chunk = per_chunk or (7 if quick else 40)
-    random_chunks = random_chunks if random_chunks is not None else (10 if quick else 26)
+    per_chunk = per_chunk or (7 if quick else 32)
+    random_chunks = random_chunks if random_chunks is not None else (10 if quick else 20)
     d = [c for c in directed_cases() if not (want_assertions and c["ag"] == "NONE")]
     specs = []
     dchunks = 6
